@@ -216,6 +216,36 @@ theorem detect_victim_in_cycle (cfg : DetectorCfg) (wg : WaitGraph) (lc : Option
   subst hv
   exact selectVictim_mem _ _ _ _ (detectCycles_sound g c hc).1
 
+/-- **Completeness** (classical DFS argument, every graph, every iteration order, unbounded size):
+    if the recorded wait-for relation contains a cycle, `detect_cycles` reports at least one. -/
+theorem detect_complete (g : Adj) (h : HasCycle g) : detectCycles g ≠ [] :=
+  detectCycles_complete g h
+
+/-- the detector reports a cycle **exactly** when the recorded wait-for relation contains one -/
+theorem detect_exact (g : Adj) : detectCycles g ≠ [] ↔ HasCycle g := by
+  constructor
+  · intro h
+    cases hc : detectCycles g with
+    | nil => exact absurd hc h
+    | cons c r =>
+      exact hasCycle_of_isCycle g c (detectCycles_sound g c (by rw [hc]; exact List.mem_cons_self))
+  · exact detectCycles_complete g
+
+/-- same, phrased with the list form of a cycle -/
+theorem detect_complete_of_cycle (g : Adj) (c : List Nat) (h : IsCycle g c) : detectCycles g ≠ [] :=
+  detectCycles_complete g (hasCycle_of_isCycle g c h)
+
+/-- `DeadlockDetector::detect` (enabled) reports a deadlock whenever some DFS cycle passes the
+    `max_cycle_length` filter; cascading never suppresses the first one. -/
+theorem detector_reports_when_cycle_fits (cfg : DetectorCfg) (wg : WaitGraph) (lc : Option (Nat → Nat)) (g : Adj)
+    (hen : cfg.enabled = true) (c : List Nat) (hc : c ∈ detectCycles g) (hl : c.length ≤ cfg.maxCycleLength) :
+    detect cfg wg lc g ≠ [] :=
+  detect_nonempty cfg wg lc g hen c hc hl
+
+example : HasCycle [(1, [2]), (2, [3, 1]), (3, [1])] :=
+  ⟨1, 2, by decide, Reach.step (v := 1) (by decide) (Reach.refl 1)⟩
+example : ¬ HasCycle [(1, [2]), (2, [3])] := by
+  rw [← detect_exact]; decide
 example : detectCycles [(1, [2]), (2, [3, 1]), (3, [1])] = [[1, 2, 3], [1, 2]] := by decide
 example : IsCycle [(1, [2]), (2, [3, 1]), (3, [1])] [1, 2, 3] := by decide
 example : selectVictim .oldest { WaitGraph.empty 0 with waitStarted := [(1, 5), (2, 3), (3, 3)] } none [1, 2, 3] = 2 := by decide
